@@ -39,6 +39,8 @@ def _world() -> Dict[str, Any]:
     """Built once per worker: probes, user objects, baseline snapshot (before any conversion)."""
     if _W:
         return _W
+    import logging
+    logging.disable(logging.WARNING)
     import jax
     import jax.numpy as jnp
     from mc import snapshot
@@ -360,7 +362,7 @@ def main(tier: str) -> int:
                        "function-body / control-flow conversion.")
     run.assumptions += ["attributes holding plain data (ints, strings, containers) are not compared: eager JAX changes "
                         "counters and caches itself", "library code imported for the first time is not a difference"]
-    with Pool(init=("mc.runners", "warm_export"), job_timeout=400) as pool:
+    with Pool(init=("checks.c13", "_world"), job_timeout=400) as pool:
         r0 = pool.map("checks.c13", "job_history", [{"count_specs": True}])[0]
         n_specs = None if is_worker_failure(r0) else r0.get("spec_count")
         run.cov["patch_applications_per_conversion"] = n_specs
@@ -390,7 +392,18 @@ def main(tier: str) -> int:
         while pending and rounds < 4:
             rounds += 1
             retry = []
-            for _i, p, r in pool.imap("checks.c13", "job_history", pending):
+            def guarded(items):
+                for it in items:
+                    if pool.restarts > 64 and len(run.violations) > 0:
+                        # almost every history leaves the process dirty: the property is already decided (violated);
+                        # do not spend the budget restarting workers
+                        run.cap(f"exploration stopped after {pool.restarts} dirty processes with violations found")
+                        skipped.append(it)
+                        continue
+                    yield it
+
+            skipped: List[Dict[str, Any]] = []
+            for _i, p, r in pool.imap("checks.c13", "job_history", guarded(pending)):
                 if is_worker_failure(r):
                     if r.get("_worker") == "died":
                         retry.append(p)
@@ -441,7 +454,7 @@ def main(tier: str) -> int:
 
 
 def replay(rep: Dict[str, Any]) -> Dict[str, Any]:
-    with Pool(1, init=("mc.runners", "warm_export")) as pool:
+    with Pool(1, init=("checks.c13", "_world")) as pool:
         r = pool.map("checks.c13", "job_history", [{"history": rep["history"]}])[0]
     bad = any(s["diff"] for s in r.get("steps", []))
     return {"violation": bad, "observed": r}
